@@ -4,6 +4,7 @@ package main
 // fmt/errors stubs, gonum sampler stubs.
 
 import (
+	"errors"
 	"fmt"
 	"go/types"
 	"math"
@@ -28,6 +29,45 @@ func init() {
 		"fmt.Errorf":  inErrorf,
 		"fmt.Sprintf": inSprintf,
 		"errors.New":  inErrorf,
+		"fmt.Sprint": func(ex *Exec, _ *ssa.Function, a []Value, _ ssa.Instruction) Value {
+			return fmt.Sprint(ex.hostArgs(a[0])...)
+		},
+		"fmt.Sprintln": func(ex *Exec, _ *ssa.Function, a []Value, _ ssa.Instruction) Value {
+			return fmt.Sprintln(ex.hostArgs(a[0])...)
+		},
+		"(*sync.Mutex).Lock":      func(*Exec, *ssa.Function, []Value, ssa.Instruction) Value { return nil },
+		"(*sync.Mutex).Unlock":    func(*Exec, *ssa.Function, []Value, ssa.Instruction) Value { return nil },
+		"(*sync.Mutex).TryLock":   func(*Exec, *ssa.Function, []Value, ssa.Instruction) Value { return true },
+		"(*sync.RWMutex).Lock":    func(*Exec, *ssa.Function, []Value, ssa.Instruction) Value { return nil },
+		"(*sync.RWMutex).Unlock":  func(*Exec, *ssa.Function, []Value, ssa.Instruction) Value { return nil },
+		"(*sync.RWMutex).RLock":   func(*Exec, *ssa.Function, []Value, ssa.Instruction) Value { return nil },
+		"(*sync.RWMutex).RUnlock": func(*Exec, *ssa.Function, []Value, ssa.Instruction) Value { return nil },
+		"(*sync.Once).Do": func(ex *Exec, _ *ssa.Function, a []Value, site ssa.Instruction) Value {
+			c := a[0].(*Cell)
+			if !ex.onceDone[c] {
+				ex.onceDone[c] = true
+				ex.callValue(a[1], nil, site)
+			}
+			return nil
+		},
+		"math/rand.Float64": func(ex *Exec, _ *ssa.Function, a []Value, _ ssa.Instruction) Value {
+			return ex.draw("uniform", F{T: ex.b.Rat(ratZero)}, F{T: ex.b.Rat(ratOne)})
+		},
+		"math/rand.NormFloat64": func(ex *Exec, _ *ssa.Function, a []Value, _ ssa.Instruction) Value {
+			return ex.draw("normal", F{T: ex.b.Rat(ratZero)}, F{T: ex.b.Rat(ratOne)})
+		},
+		"math/rand/v2.Float64": func(ex *Exec, _ *ssa.Function, a []Value, _ ssa.Instruction) Value {
+			return ex.draw("uniform", F{T: ex.b.Rat(ratZero)}, F{T: ex.b.Rat(ratOne)})
+		},
+		"math/rand/v2.NormFloat64": func(ex *Exec, _ *ssa.Function, a []Value, _ ssa.Instruction) Value {
+			return ex.draw("normal", F{T: ex.b.Rat(ratZero)}, F{T: ex.b.Rat(ratOne)})
+		},
+		"golang.org/x/exp/rand.Float64": func(ex *Exec, _ *ssa.Function, a []Value, _ ssa.Instruction) Value {
+			return ex.draw("uniform", F{T: ex.b.Rat(ratZero)}, F{T: ex.b.Rat(ratOne)})
+		},
+		"golang.org/x/exp/rand.NormFloat64": func(ex *Exec, _ *ssa.Function, a []Value, _ ssa.Instruction) Value {
+			return ex.draw("normal", F{T: ex.b.Rat(ratZero)}, F{T: ex.b.Rat(ratOne)})
+		},
 		"fmt.Println": func(*Exec, *ssa.Function, []Value, ssa.Instruction) Value { return Tuple{int64(0), nil} },
 		"fmt.Printf":  func(*Exec, *ssa.Function, []Value, ssa.Instruction) Value { return Tuple{int64(0), nil} },
 
@@ -93,13 +133,83 @@ func init() {
 	}
 }
 
+// hostValue converts an interpreted value into a Go value for real formatting (keys built with
+// fmt.Sprint / Sprintf must be faithful; symbolic integers are concretised, symbolic floats print as "?").
+func (ex *Exec) hostValue(v Value, depth int) interface{} {
+	if depth > 6 {
+		return "..."
+	}
+	v = ex.normInt(v)
+	switch x := v.(type) {
+	case nil:
+		return nil
+	case int64:
+		return int(x)
+	case bool, string:
+		return x
+	case *Term:
+		if x.sort == SInt {
+			return int(ex.concretise(x, "formatted integer"))
+		}
+		return "?"
+	case F:
+		if x.T.op == "rconst" {
+			f, _ := x.T.rat.Float64()
+			return f
+		}
+		return "?"
+	case Iface:
+		if e, ok := x.v.(*ErrObj); ok {
+			return errors.New(e.msg)
+		}
+		return ex.hostValue(x.v, depth+1)
+	case SliceV:
+		out := make([]interface{}, x.n)
+		for k := 0; k < x.n; k++ {
+			out[k] = ex.hostValue(ex.load(x.b.cells[x.off+k]), depth+1)
+		}
+		return out
+	case StructV:
+		out := make([]interface{}, len(x))
+		for k := range x {
+			out[k] = ex.hostValue(x[k], depth+1)
+		}
+		return out
+	case ArrayV:
+		out := make([]interface{}, len(x))
+		for k := range x {
+			out[k] = ex.hostValue(x[k], depth+1)
+		}
+		return out
+	case *Cell:
+		return fmt.Sprintf("%p", x)
+	}
+	return fmt.Sprintf("<%T>", v)
+}
+
+func (ex *Exec) hostArgs(v Value) []interface{} {
+	s, ok := v.(SliceV)
+	if !ok {
+		return nil
+	}
+	out := make([]interface{}, s.n)
+	for k := 0; k < s.n; k++ {
+		out[k] = ex.hostValue(ex.load(s.b.cells[s.off+k]), 0)
+	}
+	return out
+}
+
 func inErrorf(ex *Exec, _ *ssa.Function, args []Value, _ ssa.Instruction) Value {
 	msg, _ := args[0].(string)
+	// error text is not a subject of any property: keep the format string (no formatting cost on hot paths)
 	return Iface{t: nil, v: &ErrObj{msg: msg}}
 }
 
 func inSprintf(ex *Exec, _ *ssa.Function, args []Value, _ ssa.Instruction) Value {
 	msg, _ := args[0].(string)
+	if len(args) > 1 {
+		return fmt.Sprintf(msg, ex.hostArgs(args[1])...)
+	}
 	return msg
 }
 
